@@ -335,6 +335,7 @@ def fixpoint_schedules(repo: Repo) -> RuleRun:
     fn = repo.func("lists.block_list.BlockList.propagate_gradings")
     block_cls, axis_cls, bl_cls = repo.cls("items.block.Block"), repo.cls("items.wires.axis.Axis"), repo.cls("lists.block_list.BlockList")
     n = 4
+    chop_mgr, prop_mgr = repo.cls("items.wires.manager.WireChopManager"), repo.cls("items.wires.manager.WirePropagateManager")
 
     def hook(ev, call: ast.Call, name):
         f = call.func
@@ -344,7 +345,7 @@ def fixpoint_schedules(repo: Repo) -> RuleRun:
             return ev.eval(f.value)
         if isinstance(f, ast.Attribute) and f.attr in ("grade", "add_chop"):
             recv = ev.eval(f.value)
-            if isinstance(recv, Obj) and recv._cls is None and recv.has("chops"):
+            if isinstance(recv, Obj) and recv.has("chops") and recv.has("graded"):
                 if f.attr == "add_chop":
                     recv.get("chops").append(ev.eval(call.args[0]))
                 else:
@@ -361,12 +362,14 @@ def fixpoint_schedules(repo: Repo) -> RuleRun:
         for p in order:
             axes = []
             for a in range(3):
-                mgr = Obj(f"mgr_p{p}a{a}")
+                # grade / add_chop of the managers are abstracted (hook); what a manager REPORTS (count) is the repository's code
                 has = p in chopped[a]
+                mgr = Obj(f"mgr_p{p}a{a}", cls=chop_mgr if has else prop_mgr)
                 mgr.set("chops", [Obj(f"chop_p{p}a{a}")] if has else [])
                 mgr.set("is_defined", has)
                 mgr.set("graded", 0)
-                mgr.set("count", 0)
+                mgr.set("grading", Obj("axis_grading", count=5 if has else 0, is_defined=has))
+                mgr.set("wires", [Obj(f"wire_p{p}a{a}{w}", grading=Obj("wire_grading", count=5 if has else 0, is_defined=has)) for w in range(4)])
                 ax = Obj(f"axis_p{p}a{a}", cls=axis_cls)
                 ax.set("index", a)
                 ax.set("wires", mgr)
@@ -426,6 +429,13 @@ def fixpoint_schedules(repo: Repo) -> RuleRun:
         run(f"order {order}, axis chops on positions 3/3/0 and 0/1/2", order, [{3, 0}, {3, 1}, {0, 2}], chain, True)
         run(f"order {order}, axis 1 never chopped", order, [{0}, set(), {2}], chain, False)
         run(f"order {order}, positions 2-3 detached and unchopped", order, everything(0), {(0, 1), (2, 3)}, False)
+        run(f"order {order}, position 3 isolated (touches nothing) and unchopped", order, everything(0), {(0, 1), (1, 2)}, False)
+        run(f"order {order}, position 3 isolated but fully chopped", order, [{0, 3}, {0, 3}, {0, 3}], {(0, 1), (1, 2)}, True)
+    for order in [(0,), (0, 1)]:
+        bl1 = [set(), set(), set()]
+        n_save = n
+        run(f"{len(order)} block(s) without any chop", order, bl1, set(), False)
+        run(f"{len(order)} isolated block(s), one axis left unchopped", order, [set(order), set(order), set()], set(), False)
     # two families entering from opposite ends through a block whose local axes are turned by 90 degrees: the row direction '1' is
     # chopped only at position 0, direction '2' only at position 3; block 1 has its local axes 1 and 2 exchanged. (chopped[] is
     # given in LOCAL axes of each position, so the turned block holds no chop and the end blocks hold theirs on axis 1 resp. 2.)
